@@ -136,17 +136,20 @@ array_len_harness!(c26_len2_oo, 2, O, O);
 
 // pop: concrete length per harness (0, 1, 3), symbolic contents
 macro_rules! array_pop_harness {
-    ($name:ident, $len:expr, $dm:expr, $m1:expr) => {
+    ($name:ident, $len:expr, $dm:expr, $m1:expr) => { array_pop_harness!($name, $len, $dm, $m1, 4); };
+    ($name:ident, $len:expr, $dm:expr, $m1:expr, $cap:expr) => {
         vm_harness! {
             #[kani::unwind(9)]
             fn $name() {
                 let (od, o1) = (OFF_DEST, OFF_R1);
                 let mut t = mk_thread(vec![norm(Instr::ArrayPop(enc($dm, od), enc($m1, o1))), Instr::Stop], vec![], vec![]);
-                let (arr, e) = fixed_array(&mut t, $len, 4);
+                let (arr, e) = fixed_array(&mut t, $len, $cap);
                 push_frame(&mut t, ValueTag::Int);
                 if $m1 == O { t.value_stack[slot(o1)] = arr; } else { t.value_stack.push(arr); }
                 let mut model = t.value_stack.clone();
                 let _ = fetch(&mut model, $m1, o1);
+                let cap_before = arr_ref(arr).data.capacity();
+                let heap_before = t.heap_size;
                 if $len == 0 {
                     t.pc.0 = 0;
                     let cont = t.step();
@@ -164,6 +167,9 @@ macro_rules! array_pop_harness {
                         assert!(d[k].0 == e[k] && d[k].1 == ValueTag::Int, "remaining elements unchanged");
                         k += 1;
                     }
+                    // C07 accounting: heap_size follows the buffer's capacity in bytes, also when a pop gives memory back
+                    assert!(d.capacity() <= cap_before, "a pop never grows the buffer");
+                    assert!(t.heap_size + (cap_before - d.capacity()) * size_of::<Value>() == heap_before, "heap accounting follows the capacity change");
                 }
                 std::mem::forget(t);
             }
@@ -174,6 +180,9 @@ array_pop_harness!(c26_pop_len0_tt, 0, T, T);
 array_pop_harness!(c26_pop_len1_tt, 1, T, T);
 array_pop_harness!(c26_pop_len3_oo, 3, O, O);
 array_pop_harness!(c26_pop_len0_oo, 0, O, O);
+// large, mostly empty buffers (a drained worklist): the accounting obligation above must also hold if the VM returns memory here
+array_pop_harness!(c26_pop_len2_cap64_tt, 2, T, T, 64);
+array_pop_harness!(c26_pop_len1_cap256_tt, 1, T, T, 256);
 
 // push: concrete length/capacity per harness (growth and no-growth), symbolic contents
 macro_rules! array_push_harness {
